@@ -8,6 +8,7 @@ import AthlibVerif.Drv.Conc
 import AthlibVerif.Drv.Codes
 import AthlibVerif.Drv.Junior
 import AthlibVerif.Drv.Wma
+import AthlibVerif.Drv.Times
 /-!
 Line-protocol driver: one request per line (`area<TAB>cmd<TAB>arg…`), one reply per line.
 Imports only the import-free models and the generated data, so it also links as `lean_exe`.
@@ -28,6 +29,7 @@ def handle (st : DrvState) (line : String) : DrvState × String :=
   | "cd" :: rest => (st, handleCodes rest)
   | "jr" :: rest => (st, handleJunior rest)
   | "wma" :: rest => (st, handleWma rest)
+  | "tm" :: rest => (st, handleTimes rest)
   | "hj" :: rest => let (c, out) := handleHJ st.hj rest; ({ st with hj := c }, out)
   | _ => (st, "bad-area")
 
